@@ -190,6 +190,7 @@ def run(rep):
     rep.rule("R02.a", "_jacobian selects the same branches / masks as _forward; its nan-mask bounds the forward's domain argument")
     rep.rule("R02.b", "chain-rule derivative of the forward chain == monomial of the _jacobian expression")
     rep.rule("R02.c", "the Jacobian monomial is > 0 on the masked domain for every admissible parameter")
+    rep.rule("R02.d", "Jacobians outside the monomial vocabulary (Logit, LogSinh, Softmax determinant): _jacobian == derivative of the extracted forward formula, by computer algebra")
     rep.assume("exact real arithmetic; the masked domain makes every power base positive")
     mod, classes, table = c01.extract(rep)
     rep.unit(f"{file}: {len(c01.CATALOGUE)} _jacobian methods against their _forward")
@@ -268,4 +269,25 @@ def run(rep):
                 rep.check(s > 0, "R02.c", file, f"{name}._jacobian", cons,
                           f"coefficient {got.coeff} has sign {s}; every other factor is a power of a value made positive by the mask, an exponential or a cosh", line=line)
     rep.floor("derivative identities decided", nder, 22)
+    # R02.d
+    from .. import symx, pq
+    nalg = 0
+    for name in OUTSIDE_MONO:
+        tc = classes[name]
+        line = tc.methods["_jacobian"].lineno
+        try:
+            clauses = symx.class_model((rep.repo, name), tc.methods, pq)
+        except Undecided as ex:
+            rep.undecided("R02.d", file, name, f"{name}: computer-algebra model", str(ex), line=line)
+            continue
+        for clause, ok, det in clauses:
+            if "jacobian" not in clause.lower():
+                continue
+            nalg += 1
+            cons = f"{name}: {clause}"
+            if ok is None:
+                rep.undecided("R02.d", file, f"{name}._jacobian", cons, det, line=line)
+            else:
+                rep.check(ok, "R02.d", file, f"{name}._jacobian", cons, det, line=line)
+    rep.floor("computer-algebra Jacobian clauses", nalg, 8)
     return EXPLANATION
